@@ -18,10 +18,15 @@ CASE_HEADER = ("From Coq Require Import List ZArith QArith.\nFrom EV Require Imp
                "Import ListNotations.\n")
 SHARD = 40
 CASE_TIMEOUT = 20.0     # seconds per case for all ranks together (a hang is reported, not waited out)
-RULE = ("world size P in 1..6, 1..7 trajectories of length 1..5 (P <= number of trajectories; ranks owning one trajectory, "
-        "equal local lengths under unequal global lengths), dealt round-robin; kinds: kc = kcenters(mpi_mode=True) on every rank "
+RULE = ("world size P in 1..6, 1..12 trajectories of length 1..5 (P <= number of trajectories; dedicated streams: every rank owns "
+        "exactly ONE trajectory for P = 2..6, and every rank owns >= 2 trajectories of one length while the lengths differ between "
+        "ranks -- equal local lengths under unequal global lengths -- for P = 2..6), dealt round-robin; every case runs under a "
+        "list of arrival-order schedules (jitter seeds: per-rank random sleeps before and after EACH collective, seed-chosen "
+        "straggler ranks, shuffled thread start; 40% of the cases under three schedules) and all schedules must return identical "
+        "per-rank results; kinds: kc = kcenters(mpi_mode=True) on every rank "
         "(count and/or radius stop, triangle shortcut) then assemble_striped_ragged_array + convert_local_indices, compared with "
-        "the serial run on the concatenated data; hybrid = hybrid(mpi_mode=True) with rank 0's random draws recorded and replayed "
+        "the serial run on the concatenated data; kcw = the same from init_centers = 1..4 distinct frames of the data (MPI warm "
+        "start); hybrid = hybrid(mpi_mode=True) with rank 0's random draws recorded and replayed "
         "in the model; ops = striped_array_max/mean, randind for EVERY draw, convert_local_indices for every (rank, index), "
         "ctr_ids_mpi for every global index and every (trajectory, frame), assemble_striped_array, assemble_striped_ragged_array; "
         "io = load_h5_as_striped / load_npy_as_striped with strides 1..3.  Data: small integer coordinates (ties frequent) and "
@@ -33,6 +38,7 @@ TRUSTED = cc.TRUSTED + [
     "no real MPI library, no deadlock/buffer-typing behaviour of one",
     "rank 0's RandomState.randint draws are recorded and replayed in the model (k-medoids proposals)"]
 ASSUMPTIONS = ["world size <= number of trajectories, every trajectory has >= 1 frame (the loaders require it)",
+               "MPI warm start: init_centers is a non-empty list of distinct frames of the data (every rank passes the same list)",
                "owner ranks handed to convert_local_indices are < world size",
                "equality with the serial run is claimed for tie-free data only (unique farthest frame at every iteration); "
                "with ties the distributed run is still compared with its own model and must satisfy the clustering invariant"]
@@ -99,6 +105,18 @@ def gen_lens(rng, P=None):
     style = rng.random()
     if P is None:
         P = rng.choice([1, 2, 2, 3, 3, 4, 5, 6])
+    if style < 0.15 and P >= 2:
+        # every rank owns exactly one trajectory (world size = number of trajectories), P up to 6
+        return P, [rng.randint(1, 5) for _ in range(P)]
+    if style < 0.35 and P >= 2:
+        # equal local lengths under unequal global lengths (the D4 trigger), every world size up to 6: rank r owns
+        # 2 or 3 trajectories, all of length per_rank[r]; at least two ranks differ
+        per_rank = [rng.randint(1, 3) for _ in range(P)]
+        if len(set(per_rank)) == 1:
+            per_rank[rng.randrange(P)] = per_rank[0] % 3 + 1
+        ntr = min(12, 2 * P + rng.choice([0, 0, 1, P]))
+        return P, [per_rank[t % P] for t in range(ntr)]
+    style = rng.random()
     ntr = rng.randint(P, max(P, min(7, P + rng.choice([0, 0, 1, 2, 3]))))
     if style < 0.2:
         lens = [rng.randint(1, 4)] * ntr                      # square
@@ -109,6 +127,16 @@ def gen_lens(rng, P=None):
     else:
         lens = [rng.randint(1, 5) for _ in range(ntr)]
     return P, lens
+
+
+def gen_jitter(rng):
+    """the arrival-order schedules a case is run under (None = no artificial delays)"""
+    r = rng.random()
+    if r < 0.15:
+        return [None]
+    if r < 0.6:
+        return [rng.randrange(10 ** 6)]
+    return [rng.choice([None, rng.randrange(10 ** 6)]), rng.randrange(10 ** 6), rng.randrange(10 ** 6)]
 
 
 def gen_cluster(rng, kind):
@@ -141,11 +169,15 @@ def gen_cluster(rng, kind):
     kmax = min(n, 6)
     c["nclu"] = rng.randint(1, kmax) if mode in ("k", "both") else None
     c["cutoff"] = rng.choice([1, 2, 3, 1.5, 5]) if mode in ("r", "both") else None
-    c["ti"] = (kind == "kc" and rng.random() < 0.4 and (c["metric"] != "matrix" or c.get("tri")))
+    c["ti"] = bool(kind in ("kc", "kcw") and rng.random() < 0.4 and (c["metric"] != "matrix" or c.get("tri")))
     if kind == "hybrid":
         c["n_iters"] = rng.randint(1, 3)
         c["seed"] = rng.randrange(10 ** 6)
-    c["jitter"] = rng.choice([None, rng.randrange(1000)])
+    if kind == "kcw":
+        c["init"] = rng.sample(range(n), rng.randint(1, min(4, n)))
+        if c["nclu"] is not None and rng.random() < 0.7:
+            c["nclu"] = min(n, len(c["init"]) + rng.randint(0, 3))
+    c["jitter"] = gen_jitter(rng)
     return c
 
 
@@ -155,7 +187,7 @@ def gen_ops(rng):
     c = {"kind": "ops", "P": P, "lens": lens, "n": n,
          "vals": [rng.randint(-9, 9) if rng.random() < 0.5 else rng.randint(0, 9) for _ in range(n)],
          "ns": [rng.choice([0, 1, 1, 2, 3, 4]) for _ in range(P)],
-         "dtype": rng.choice(["float64", "int64"]), "jitter": rng.choice([None, rng.randrange(1000)])}
+         "dtype": rng.choice(["float64", "int64"]), "jitter": gen_jitter(rng)}
     if sum(c["ns"]) == 0:
         c["ns"][rng.randrange(P)] = rng.randint(1, 3)
     return c
@@ -164,7 +196,7 @@ def gen_ops(rng):
 def gen_io(rng):
     P, lens = gen_lens(rng)
     return {"kind": "io", "P": P, "lens": lens, "n": sum(lens), "stride": rng.choice([1, 1, 2, 3]),
-            "width": rng.randint(1, 3), "jitter": None}
+            "width": rng.randint(1, 3), "jitter": [rng.choice([None, rng.randrange(10 ** 6)])]}
 
 
 def generate(rng, tier):
@@ -174,6 +206,8 @@ def generate(rng, tier):
         cases.append(gen_cluster(rng, "kc"))
     for _ in range(70 * mult):
         cases.append(gen_cluster(rng, "hybrid"))
+    for _ in range(60 * mult):
+        cases.append(gen_cluster(rng, "kcw"))
     for _ in range(60 * mult):
         cases.append(gen_ops(rng))
     for _ in range(16 * mult):
@@ -201,6 +235,33 @@ def _kc_kwargs(c):
     return kw
 
 
+def _jitters(c):
+    j = c.get("jitter")
+    return list(j) if isinstance(j, list) else [j]
+
+
+def _run_schedules(c, once):
+    """once(seed, stats) -> the result of one whole run of all ranks (a dict; exceptions already mapped).
+    The run under the first schedule is THE result; under every other schedule the ranks must return exactly
+    the same values (rerun_diff says which schedule did not).  sched = what was really exercised."""
+    seeds = _jitters(c)
+    st = {}
+    out = once(seeds[0], st)
+    orders = set(st.get("orders", ()))
+    colls = st.get("n_collectives", 0)
+    for s_ in seeds[1:]:
+        st2 = {}
+        o2 = once(s_, st2)
+        orders |= set(st2.get("orders", ()))
+        if o2 != out:
+            diff = sorted(k for k in set(out) | set(o2) if out.get(k) != o2.get(k))
+            out["rerun_diff"] = "schedule %r differs from schedule %r in %s" % (s_, seeds[0], diff)
+            break
+    out["sched"] = {"seeds": len(seeds), "collectives": colls, "arrival_orders": len(orders),
+                    "last_arrivers": sorted({o[-1] for o in orders})}
+    return out
+
+
 def run_cluster(c):
     from enspara.cluster import kcenters as KC, hybrid as KH
     from enspara.mpi import ops
@@ -209,17 +270,19 @@ def run_cluster(c):
     P, lens = c["P"], c["lens"]
     out = {"D": [[str(v) for v in row] for row in cc.dist_matrix(X, metric)]}
     kw = _kc_kwargs(c)
+    if c["kind"] == "kcw":
+        kw["init_centers"] = X[c["init"]].copy()
     try:
         ser = KC.kcenters(X.copy(), metric, use_triangle_inequality=bool(c.get("ti")), **kw)
         out["serial"] = cc.canon(ser, X)
     except Exception as ex:
         out["serial"] = _err(ex)
     gl = np.array(lens)
-    recs = [RecRS(c.get("seed", 0)) for _ in range(P)]
+    recs = []
 
     def fn(r):
         loc = local_rows(X, lens, r, P).copy()
-        if c["kind"] == "kc":
+        if c["kind"] in ("kc", "kcw"):
             res = KC.kcenters(loc, metric, use_triangle_inequality=bool(c.get("ti")), mpi_mode=True, **kw)
         else:
             res = KH.hybrid(loc, metric, n_iters=c["n_iters"], mpi_mode=True, random_state=recs[r], **kw)
@@ -233,12 +296,17 @@ def run_cluster(c):
             np.array_equal(np.asarray(cen), np.asarray(X[i])) for cen, i in zip(res.centers, ci)))
         o["smax"] = _q(ops.striped_array_max(res.distances))
         return o
-    try:
-        out["ranks"] = mpisim.run_ranks(P, fn, jitter=c.get("jitter"), timeout=CASE_TIMEOUT)
-        out["draws"] = list(recs[0].log)
-    except Exception as ex:
-        out.update(_err(ex))
-    return out
+
+    def once(seed, stats):
+        o = dict(out)
+        recs[:] = [RecRS(c.get("seed", 0)) for _ in range(P)]
+        try:
+            o["ranks"] = mpisim.run_ranks(P, fn, jitter=seed, timeout=CASE_TIMEOUT, stats=stats)
+            o["draws"] = list(recs[0].log)
+        except Exception as ex:
+            o.update(_err(ex))
+        return o
+    return _run_schedules(c, once)
 
 
 def run_ops(c):
@@ -263,10 +331,13 @@ def run_ops(c):
         o["asm"] = [int(v) for v in asm]
         o["asm_dtype_ok"] = bool(asm.dtype == loc.dtype)
         return o
-    try:
-        return {"ranks": mpisim.run_ranks(P, fn, jitter=c.get("jitter"), timeout=CASE_TIMEOUT)}
-    except Exception as ex:
-        return _err(ex)
+
+    def once(seed, stats):
+        try:
+            return {"ranks": mpisim.run_ranks(P, fn, jitter=seed, timeout=CASE_TIMEOUT, stats=stats)}
+        except Exception as ex:
+            return _err(ex)
+    return _run_schedules(c, once)
 
 
 def run_io(c):
@@ -299,7 +370,13 @@ def run_io(c):
                 o[name] = {"lens": [int(v) for v in gl_], "ids": [int(v) for v in loc.reshape(len(loc), -1)[:, 0]],
                            "equal": bool(loc.shape == exp.shape and np.array_equal(loc, exp))}
             return o
-        return {"ranks": mpisim.run_ranks(P, fn, jitter=c.get("jitter"), timeout=CASE_TIMEOUT)}
+
+        def once(seed, stats):
+            try:
+                return {"ranks": mpisim.run_ranks(P, fn, jitter=seed, timeout=CASE_TIMEOUT, stats=stats)}
+            except Exception as ex:
+                return _err(ex)
+        return _run_schedules(c, once)
     except Exception as ex:
         return _err(ex)
     finally:
@@ -313,7 +390,7 @@ def run_impl(c):
     kind = c["kind"]
     if _hangs.get(kind, 0) >= 3:     # circuit breaker: do not wait out a tree that hangs on every case
         return {"err": "RanksTimeout", "msg": "not run: three earlier %s cases already hung" % kind}
-    out = run_cluster(c) if kind in ("kc", "hybrid") else run_ops(c) if kind == "ops" else run_io(c)
+    out = run_cluster(c) if kind in ("kc", "kcw", "hybrid") else run_ops(c) if kind == "ops" else run_io(c)
     if out.get("err") == "RanksTimeout":
         _hangs[kind] = _hangs.get(kind, 0) + 1
     return out
@@ -341,6 +418,8 @@ def _model_cluster(c, out):
     nclu, cutoff = cc.nclu_term(c), cc.cutoff_term(c)
     if c["kind"] == "kc":
         return "(kcenters_mpi (Dm M) %s %s %s %s %s)" % (P, lens, nclu, cutoff, cb(bool(c.get("ti"))))
+    if c["kind"] == "kcw":
+        return "(kcenters_warm_mpi (Dm M) %s %s %s %s %s %s)" % (P, lens, _nl(c["init"]), nclu, cutoff, cb(bool(c.get("ti"))))
     k = len(out["ranks"][0]["ctr"])
     sweeps = _split_sweeps(out["draws"], k, c["n_iters"])
     return "(hybrid_mpi (Dm M) %s %s %s %s %s)" % (P, lens, nclu, cutoff,
@@ -352,7 +431,7 @@ def coq_check(c, out):
         return None
     rk = out["ranks"]
     P, lens = cn(c["P"]), _nl(c["lens"])
-    if c["kind"] in ("kc", "hybrid"):
+    if c["kind"] in ("kc", "kcw", "hybrid"):
         r0 = rk[0]
         exp = "(Some (%s, %s, %s))" % (_pairs(r0["ctr"]), clist([r["asg"] for r in rk], _nl, "(list nat)"),
                                        clist([r["dst"] for r in rk], _ql, "(list Q)"))
@@ -399,7 +478,7 @@ def coq_show(c, out=None):
     if out is None:
         out = run_impl(c)
     P, lens = cn(c["P"]), _nl(c["lens"])
-    if c["kind"] in ("kc", "hybrid") and "ranks" in out:
+    if c["kind"] in ("kc", "kcw", "hybrid") and "ranks" in out:
         return "(let M := %s in ds_show %s)" % (cc.D_term(out), _model_cluster(c, out))
     if c["kind"] == "ops":
         return "(map (randind %s) (seq 0 %s), map (ctr_ids_mpi %s %s) (seq 0 %s), striped_mean (scatter %s %s %s))" % (
@@ -417,8 +496,9 @@ def serial_tie_free(c, out):
     n = len(D)
     nclu = c["nclu"] if c["nclu"] is not None else float("inf")
     cutoff = F(c["cutoff"]) if c["cutoff"] is not None else F(0)
-    dist = [D[0][f] for f in range(n)]
-    k = 1
+    init = c["init"] if c["kind"] == "kcw" else [0]
+    dist = [min(D[ci][f] for ci in init) for f in range(n)]
+    k = len(init)
     while k < nclu and max(dist) > cutoff:
         m = max(dist)
         if sum(1 for v in dist if v == m) > 1:
@@ -434,8 +514,10 @@ def oracle(c, out):
         return [("impl-error", "%s: %s" % (out["err"], out.get("msg")))]
     rk = out["ranks"]
     fails = []
+    if out.get("rerun_diff"):
+        fails.append(("arrival-order", "the ranks' results depend on the order of arrival at the collectives: " + out["rerun_diff"]))
     P, lens = c["P"], c["lens"]
-    if c["kind"] in ("kc", "hybrid"):
+    if c["kind"] in ("kc", "kcw", "hybrid"):
         r0 = rk[0]
         for r, o in enumerate(rk):
             if (o["ci"], o["A"], o["Dd"], o["ctr"], o["smax"]) != (r0["ci"], r0["A"], r0["Dd"], r0["ctr"], r0["smax"]):
@@ -453,7 +535,9 @@ def oracle(c, out):
             fails.append(("mpi-" + key, msg))
         if F(r0["smax"]) != max(F(v) for v in r0["Dd"]):
             fails.append(("striped-max", "striped_array_max %s != max of all distances" % r0["smax"]))
-        if c["kind"] == "kc":
+        if c["kind"] == "kcw" and r0["ci"][:len(c["init"])] != c["init"]:
+            fails.append(("warm-centres", "the supplied initial centres %s are not the first reported centres %s" % (c["init"], r0["ci"])))
+        if c["kind"] in ("kc", "kcw"):
             ser = out["serial"]
             if "err" in ser:
                 fails.append(("serial-error", str(ser)))
@@ -512,7 +596,7 @@ def oracle(c, out):
 def nontrivial(c, out):
     if "ranks" not in out or c["P"] < 2 or len(c["lens"]) < 2:
         return False
-    if c["kind"] in ("kc", "hybrid"):
+    if c["kind"] in ("kc", "kcw", "hybrid"):
         return len(out["ranks"][0]["ctr"]) >= 2
     return True
 
@@ -522,12 +606,25 @@ def tags(c, out):
     lens, P = c["lens"], c["P"]
     if any(len(owned(lens, r, P)) == 1 for r in range(P)):
         t.append("rank-owns-one-trajectory")
+    if P >= 2 and len(lens) == P:
+        t.append("every-rank-owns-one-trajectory")
+        if P >= 5:
+            t.append("P>=5-every-rank-owns-one-trajectory")
+    sch = out.get("sched") or {}
+    if sch.get("seeds", 0) >= 3:
+        t.append("three-schedules")
+    if sch.get("arrival_orders", 0) >= 2:
+        t.append("arrival-orders-varied")
+    if len(sch.get("last_arrivers", [])) >= 2:
+        t.append("last-arriver-varied")
     if len(set(lens)) > 1 and any(len(owned(lens, r, P)) > 1 and len({lens[i] for i in owned(lens, r, P)}) == 1 for r in range(P)):
         t.append("equal-local-lengths-unequal-global")
+        if P >= 4:
+            t.append("P>=4-equal-local-lengths-unequal-global")
     if "err" in out:
         t.append("impl-error")
         return t
-    if c["kind"] in ("kc", "hybrid"):
+    if c["kind"] in ("kc", "kcw", "hybrid"):
         t.append(c["metric"])
         if c.get("ti"):
             t.append("ti")
@@ -543,8 +640,11 @@ def tags(c, out):
     return t
 
 
-ESSENTIAL_TAGS = ["kc", "hybrid", "ops", "io", "P=1", "P=2", "P=3", "P=4", "rank-owns-one-trajectory",
-                  "equal-local-lengths-unequal-global", "tie-free", "ties", "ti", "centres-on-several-ranks", "pam-draws"]
+ESSENTIAL_TAGS = ["kc", "kcw", "hybrid", "ops", "io", "P=1", "P=2", "P=3", "P=4", "P=5", "P=6", "rank-owns-one-trajectory",
+                  "every-rank-owns-one-trajectory", "P>=5-every-rank-owns-one-trajectory",
+                  "equal-local-lengths-unequal-global", "P>=4-equal-local-lengths-unequal-global",
+                  "three-schedules", "arrival-orders-varied", "last-arriver-varied",
+                  "tie-free", "ties", "ti", "centres-on-several-ranks", "pam-draws"]
 
 
 def search(rng, tier):
